@@ -332,4 +332,18 @@ theorem events_bodyDone_afterHead (cfg : Cfg) (m t v : Str) (h : Hdrs) (ka : Boo
   cases ka <;> by_cases he : hGet h kExpect = some k100Continue <;> by_cases hb : body = [] <;>
     simp [St.emit, pushEv, init, he, hb]
 
+/-! ### concrete inputs for the non-vacuity examples in Props.lean -/
+
+/-- the head `POST / HTTP/1.1␍␊Host:x␍␊Transfer-Encoding:chunked␍␊␍␊` -/
+def postChunkedHead : Str :=
+  [80, 79, 83, 84, 32, 47, 32, 72, 84, 84, 80, 47, 49, 46, 49, 13, 10, 72, 111, 115, 116, 58, 120, 13, 10,
+   84, 114, 97, 110, 115, 102, 101, 114, 45, 69, 110, 99, 111, 100, 105, 110, 103, 58, 99, 104, 117, 110, 107, 101, 100,
+   13, 10, 13, 10]
+
+def postChunkedHdrs : Hdrs :=
+  { m := [(kHost, [[120]]), (kTransferEncoding, [kChunked])], last := some kTransferEncoding }
+
+/-- `GET / HTTP/1.1␍␊Host:x␍␊␍␊` -/
+def getHead : Str := [71, 69, 84, 32, 47, 32, 72, 84, 84, 80, 47, 49, 46, 49, 13, 10, 72, 111, 115, 116, 58, 120, 13, 10, 13, 10]
+
 end TornadoModel.C01
